@@ -547,3 +547,14 @@ package syntax
 //@ func syntax.encodeInt property C16
 //@   requires buf != nil
 //@   ensures @numeral v < 0 || v >= 10 ==> ghost(wrotestr)[buf] == fn("strconv.FormatInt", v, 10)
+
+// ---------------------------------------------------------------- C09 a splitting stage stays a splitting stage when formatted
+// Ghost event: pwrote[s] counts printer.mustWriteString(s).  A stage is formatted with its
+// `) split (` block whenever it splits - also when the block declares no chunk
+// parameters (the grammar accepts an empty block and it makes the stage split).
+//@ func syntax.printer.mustWriteString property C09
+//@   trusted
+//@   effect pwrote s
+//@ func syntax.Stage.format property C09
+//@   requires self != nil && printer != nil
+//@   ensures @split old(self.Split) ==> ghost(pwrote)[") split (\n"] > old(ghost(pwrote)[") split (\n"])
